@@ -412,6 +412,7 @@ func genC10(c *Ctx) {
 	c10Primitives(c, nprim)
 	c10ExtraKeyBoundaries(c)
 	c10ReservedTagDraws(c)
+	c10SmpFlags(c)
 	for i := 0; i < nsess; i++ {
 		pol := []int{polV3, polV2, polV2 | polV3}[i%3]
 		pols := []int{pol, pol}
@@ -617,5 +618,76 @@ func c10ReservedTagDraws(c *Ctx) {
 				c.Violate("spec-deviation", trig, "the key exchange did not complete after the random source produced reserved instance tag values first", s.trace)
 			}
 		}
+	}
+}
+
+// messages that carry no user-visible text but an SMP TLV (steps, abort, replies to out-of-sequence steps) are marked
+// IGNORE_UNREADABLE, as the specification asks for messages the user would not miss; so are heartbeats
+func c10SmpFlags(c *Ctx) {
+	sec := []byte("s")
+	for _, pol := range []int{polV3, polV2} {
+		pols := []int{pol, pol}
+		s := newSys(pols, c.R.U64())
+		if !s.Handshake(1, 2) {
+			continue
+		}
+		check := func(who, reader int, what string) {
+			p := s.ps[who]
+			for i := p.pending; i < len(p.outs); i++ {
+				w := parseWire(p.outs[i])
+				if w.kind != 4 {
+					continue
+				}
+				plain, tlvs, ok := otr3.VerifPeekTLVs(s.ps[reader].c, p.outs[i])
+				if !ok {
+					continue
+				}
+				smp := false
+				for _, t := range tlvs {
+					if t.Type >= 2 && t.Type <= 7 {
+						smp = true
+					}
+				}
+				c.Rep.Evaluations++
+				if (smp || len(tlvs) == 0) && len(plain) == 0 && w.data.Flag&1 == 0 {
+					c.Violate("spec-deviation", fmt.Sprintf("v%d,%s", versionOf(pol), what), fmt.Sprintf("a data message without text that carries %d TLV(s) (SMP: %v) is not marked IGNORE_UNREADABLE (flags %#x)", len(tlvs), smp, w.data.Flag), s.trace)
+				}
+			}
+		}
+		// a run that is aborted by its initiator
+		s.StartSMP(1, "", sec)
+		check(1, 2, "smp1")
+		s.Pump(1, 2, 4)
+		s.AbortSMP(1)
+		check(1, 2, "user-abort")
+		s.Pump(1, 2, 4)
+		// an out-of-sequence step: the responder answers with an abort
+		s.StartSMP(1, "", sec)
+		s.Pump(1, 2, 4)
+		s.ProvideSMP(2, sec)
+		idx := s.next(2)
+		if idx >= 0 {
+			check(2, 1, "smp2")
+			s.Deliver(2, idx, 1, MNone) // 1 answers with message 3
+			j := s.next(1)
+			if j >= 0 {
+				check(1, 2, "smp3")
+				s.AbortSMP(2) // the responder gives up before message 3 arrives
+				check(2, 1, "user-abort-2")
+				s.dropFrom(2, s.ps[2].pending)
+				s.Deliver(1, j, 2, MNone) // message 3 arrives out of sequence
+				check(2, 1, "reply-to-out-of-sequence")
+			}
+		}
+		s.Pump(1, 2, 10)
+		// heartbeat
+		s.tick(200)
+		s.Send(1, []byte("tick"))
+		k := s.next(1)
+		if k >= 0 {
+			s.Deliver(1, k, 2, MNone)
+			check(2, 1, "heartbeat")
+		}
+		c.Count("smp-flags")
 	}
 }
